@@ -137,10 +137,9 @@ def _install():
     def put(self, item, *a, **k):
         nm = _ctx['qname'].get(id(self))
         if nm is not None and item is not None and isinstance(item, tuple) and detsched.current() is not None:
-            w, n = who()
-            if w in ('w', 'wc'):
-                # logged before the real put: a consumer can only get the item afterwards
-                detsched.emit('QPut', q=nm, who=w, n=n, u=small_uid(item[0]))
+            # (the QPut event is logged by the queue's deque at the very moment of the append - see `name_queues`: an event
+            # logged here, before the real put, could be overtaken by another worker's put when `emit` is a scheduling
+            # point, as it is under the guided strategy)
             if _ctx.get('hop'):
                 # emulate a PROCESS queue: the item goes through a pickle round trip (a RemoteException wrapper arrives as
                 # the original exception with its remote traceback attached, exactly as across a real process boundary)
@@ -291,16 +290,7 @@ def _make_scenario(sc):
 
         server._enqueue = enqueue
         server.__enter__()
-        qn = _ctx['qname']
-        qn[id(server._q_in)] = 'in'
-        qn[id(server._q_out)] = 'out'
-        if topo == 'seq':
-            qn[id(servlet._qs[0])] = 'm1'
-        if topo == 'ens':
-            qn[id(servlet._qins[0])], qn[id(servlet._qins[1])] = 'ma', 'mb'
-            qn[id(servlet._qouts[0])], qn[id(servlet._qouts[1])] = 'oa', 'ob'
-        if topo == 'switch':
-            qn[id(servlet._qins[0])], qn[id(servlet._qins[1])] = 'ma', 'mb'
+        name_queues(server, servlet)
 
         def caller(r):
             if sc['delay'][r]:
@@ -329,7 +319,35 @@ def _make_scenario(sc):
         names = [t.name for t in sched.alive() if t is not sched.root]
         detsched.emit('Exit', leftover=len(names))
 
+    import collections
+
+    class LogDeque(collections.deque):
+        """the deque inside a _SimpleThreadQueue: a worker's put is logged at the moment of the append"""
+        qname = None
+
+        def append(self, item):
+            collections.deque.append(self, item)
+            if item is not None and isinstance(item, tuple) and detsched.current() is not None:
+                w, n = who()
+                if w in ('w', 'wc'):
+                    detsched.emit('QPut', q=self.qname, who=w, n=n, u=small_uid(item[0]))
+
+    def log_puts(q, name):
+        d = LogDeque(q._queue)
+        d.qname = name
+        q._queue = d
+
     def name_queues(server, servlet):
+        _name_queues(server, servlet)
+        by_id = {}
+        for q in [server._q_in, server._q_out] + list(getattr(servlet, '_qs', [])) + list(getattr(servlet, '_qins', [])) \
+                + list(getattr(servlet, '_qouts', [])):
+            nm = _ctx['qname'].get(id(q))
+            if nm is not None and id(q) not in by_id:
+                by_id[id(q)] = nm
+                log_puts(q, nm)
+
+    def _name_queues(server, servlet):
         qn = _ctx['qname']
         qn[id(server._q_in)] = 'in'
         qn[id(server._q_out)] = 'out'
@@ -431,6 +449,66 @@ def spec_worker(name, topo):
     return int(m.group(1)) + 1 if m else 0
 
 
+# spec -> code (L2): action of ServletNet -> (role, event).  Roles: c<r> caller of request r; w<i> worker i; wc<i> the collector
+# thread of batching worker i; gather; enq / deq (ensemble helper threads); sw (switch helper thread)
+def behaviour_to_item(beh, consts):
+    """A TLC behaviour of ServletNet -> scenario + steering script (behaviours with abandoned requests are not steered)."""
+    from mbt.tlc import split_action
+    p = beh[0][1]['p']
+    topo = consts['Topo']
+    script = []
+    for act, st in beh[1:]:
+        name, args = split_action(act)
+        if name == 'Abandon':
+            return None
+        if name == 'Submit':
+            script.append({'role': f'c{args[0]}', 'ev': 'Submit', 'act': act})
+        elif name == 'Return':
+            script.append({'role': f'c{args[0]}', 'ev': 'Ret', 'act': act})
+        elif name == 'Gather':
+            script.append({'role': 'gather', 'ev': 'QGet', 'act': act})
+        elif name == 'EnsEnq':
+            script.append({'role': 'enq', 'ev': 'QGet', 'act': act})
+        elif name == 'SwEnq':
+            script.append({'role': 'sw', 'ev': 'QGet', 'act': act})
+        elif name == 'EnsDeq':
+            script.append({'role': 'deq', 'ev': 'QGet', 'act': act})
+        elif name in ('WTake', 'WFinish', 'WPut', 'WPutSc'):
+            i = args[0]
+            batching = topo == 'seq' and i == 3
+            role = f'wc{i}' if (name in ('WTake', 'WPutSc') and batching) else f'w{i}'
+            script.append({'role': role, 'ev': {'WTake': 'QGet', 'WFinish': 'WDone', 'WPut': 'QPut', 'WPutSc': 'QPut'}[name],
+                           'act': act})
+    R = consts['R']
+    stages = ('S1', 'S2', 'A', 'B')
+    sc = {'topo': topo, 'R': R, 'fail': {s: sorted(p['fail'][s]) for s in stages}, 'pre': {s: sorted(p['pre'][s]) for s in stages},
+          'route': [p['route'][r] for r in sorted(p['route'])] if isinstance(p['route'], dict) else list(p['route']),
+          'failfast': consts['FailFast'], 'abandon': [], 'dur': {s: [0] * (R + 1) for s in stages}, 'delay': [0] * (R + 1),
+          'bwait': 1, 'hop': False, 'hook': False, 'flavour': 'sync'}
+    return {'sc': sc, 'script': script}
+
+
+def _role_of_factory(topo):
+    def role_of(t):
+        n = t.name
+        m = re.match(r'caller-(\d+)', n)
+        if m:
+            return 'c' + m.group(1)
+        w = spec_worker(n, topo)
+        if w:
+            return ('wc' if '_build_input_batches' in n else 'w') + str(w)
+        if '_gather_output' in n:
+            return 'gather'
+        if 'EnsembleServlet._enqueue' in n:
+            return 'enq'
+        if 'EnsembleServlet._dequeue' in n:
+            return 'deq'
+        if '._enqueue' in n:
+            return 'sw'
+        return 'x'
+    return role_of
+
+
 def run_job(job):
     import threading
     from mbt import detsched
@@ -461,10 +539,19 @@ def run_job(job):
             st = detsched.PCTStrategy(seed, depth=3 + seed % 4, est_steps=2500, fire=0.2)
         else:
             st = detsched.RandomStrategy(seed, stay=0.4 + 0.5 * ((seed * 7919) % 10) / 10.0, fire=0.25)
+        guided = None
+        if item.get('script') is not None:
+            guided = st = detsched.GuidedStrategy(item['script'], _role_of_factory(topo), {}, seed=seed, patience=80)
+            strat = 'guided'
         res = detsched.run(_make_scenario(sc), st, max_steps=500000, stall_timeout=120, lag=0.02, max_idle_vtime=3000.0)
         n_exec += 1
         rec = {'id': item['id'], 'p': header(sc), 'ev': strip(res.trace), 'sc': sc, 'seed': seed, 'strategy': strat,
                'status': res.status}
+        if guided is not None:
+            want = [x['ev'] for x in item['script']]
+            got = [e['ev'] for e in rec['ev'] if e['ev'] in ('Submit', 'Ret', 'QGet', 'QPut', 'WDone')]
+            rec['l2'] = {'steps': len(want), 'followed': guided.followed, 'skipped': guided.skipped,
+                         'exact': got[:len(want)] == want}
         if res.status != 'ok' or res.exc is not None:
             rec.update(detail=res.detail, waitmap=res.waitmap, exc=repr(res.exc) if res.exc is not None else None,
                        leftover=res.leftover, thread_errors=res.thread_errors)
